@@ -44,7 +44,8 @@ def c18(ck, scratch, vh, prop, tier, seed, ev):
     profile = 'short' if tier == 'quick' else 'long'
     files = []
     known = ck.known_devs()
-    for i in range(runs):
+    plan = [(profile, i) for i in range(runs)] + [('grow', runs)]   # the last one: a commit beside growth, both stalled at their latches
+    for profile, i in plan:
         out = os.path.join(scratch, 'traces', 'race-%d' % i)
         logs = os.path.join(scratch, 'racelogs-%d' % i)
         os.makedirs(out, exist_ok=True)
